@@ -135,7 +135,7 @@ Definition lx (cs : list Z) : option (token * list Z) :=
 Definition after_ok (t : token) (rest : list Z) : Prop :=
   match rest with c :: _ => clash_char t c = false | [] => True end.
 Definition fc_ok (f : fclass) (c : Z) : Prop :=
-  match f with FAlpha lc => is_alpha c = true /\ lower c = lc | FDigit => is_digit c = true | FChar k => c = k end.
+  match f with FAlpha lc => is_alpha c = true /\ lower c = lc | FDigit => is_digit c = true | FQuote => c = 34 \/ c = 39 | FChar k => c = k end.
 
 Lemma kw_of_spelling k : kw_of_word (kw_spelling k) = Some k.
 Proof. destruct k; vm_compute; reflexivity. Qed.
@@ -206,11 +206,10 @@ Proof.
     reflexivity.
 Qed.
 
-Lemma lex_str dq b rest : tok_ok (TStr dq b) = true -> lx ((if dq then 34 else 39) :: b ++ [if dq then 34 else 39] ++ rest)
-  = Some (TStr dq b, rest).
+Lemma lex_str q b rest : q = 34 \/ q = 39 -> forallb (fun c => negb (c =? q)) b = true ->
+  lx (q :: b ++ [q] ++ rest) = Some (TStr b, rest).
 Proof.
-  cbn [tok_ok]. intros Hb. destruct dq; cbn [lx app]; unfold lex_one;
-    (rewrite until_quote_ok by exact Hb); reflexivity.
+  intros [-> | ->] Hb; cbn [lx app]; unfold lex_one; (rewrite until_quote_ok by exact Hb); reflexivity.
 Qed.
 
 Lemma lex_table n rest : tok_ok (TTable n) = true -> after_ok (TTable n) rest -> lx (35 :: n ++ rest) = Some (TTable n, rest).
@@ -361,7 +360,7 @@ Proof.
   - apply lex_int; assumption.
   - apply lex_dec; assumption.
   - apply lex_datetok; assumption.
-  - cbn [spell] in Hs. subst s. cbn [app]. rewrite <- app_assoc. apply lex_str, Hok.
+  - destruct Hs as (q & Hq & -> & Hb). cbn [app]. rewrite <- app_assoc. apply lex_str; assumption.
   - cbn [spell] in Hs. subst s. cbn [app]. apply lex_table; assumption.
   - destruct Hs as (c & -> & Hc). apply lex_placeS; assumption.
   - destruct Hs as (g1 & w & g2 & c & -> & H1 & H2 & Hw & Hl & Hc). cbn [app]. rewrite <- !app_assoc.
@@ -415,6 +414,7 @@ Proof.
     + destruct Hl as (-> & _). exists 46, fp. split; reflexivity.
   - destruct Hs as (a & b & c & e & f & g & h & i & -> & Hd & _). exists a. eexists. split; [reflexivity|].
     unfold digits_ok in Hd. cbn [forallb] in Hd. apply andb_prop in Hd. apply Hd.
+  - destruct Hs as (q & Hq & -> & _). exists q. eexists. split; [reflexivity|exact Hq].
   - destruct Hs as (c & -> & _). exists 37. eexists. split; reflexivity.
   - destruct Hs as (g1 & w & g2 & c & -> & _). exists 37. eexists. split; reflexivity.
 Qed.
@@ -424,13 +424,14 @@ Proof. intros Hok Hs. destruct (spell_first t s Hok Hs) as (c & s' & -> & _). di
 
 Lemma clash_sound t f c : clash t f = false -> fc_ok f c -> clash_char t c = false.
 Proof.
-  destruct f as [lc| |k]; cbn [fc_ok].
+  destruct f as [lc| | |k]; cbn [fc_ok].
   - intros Hc (Ha & Hlc). pose proof (alpha_word c Ha) as Hw. pose proof (alpha_not_digit c Ha) as Hd.
     destruct t; cbn [clash clash_char] in *; try discriminate; try reflexivity; try exact Hd;
       try (unfold is_alpha, is_upper, is_lower in Ha; lia).
   - intros Hc Hd. pose proof (digit_word c Hd) as Hw.
     destruct t; cbn [clash clash_char] in *; try discriminate; try reflexivity; unfold is_digit in Hd; try lia.
     unfold lower, is_upper. destruct ((65 <=? c) && (c <=? 90)) eqn:E; lia.
+  - intros _ [-> | ->]; destruct t; reflexivity.
   - intros Hc ->. exact Hc.
 Qed.
 
@@ -460,10 +461,11 @@ Lemma spell_solid t s rest : tok_ok t = true -> spell t s -> after_ok t rest -> 
 Proof.
   intros Hok Hs Ha. destruct (spell_first t s Hok Hs) as (c & s' & E & Hc). subst s. cbn [app solid].
   assert (F : is_space c = false /\ c <> 59 /\ (c = 47 -> t = TSlash)).
-  { destruct (first_class t) as [lc| |k] eqn:Ef; cbn [fc_ok] in Hc.
+  { destruct (first_class t) as [lc| | |k] eqn:Ef; cbn [fc_ok] in Hc.
     - destruct Hc as [Hc _]. unfold is_alpha, is_upper, is_lower in Hc. unfold is_space. repeat split; try lia.
     - unfold is_digit in Hc. unfold is_space. repeat split; try lia.
-    - subst c. destruct t; cbn [first_class] in Ef; try (destruct lead); try (destruct dq); try discriminate;
+    - destruct Hc as [-> | ->]; repeat split; try reflexivity; discriminate.
+    - subst c. destruct t; cbn [first_class] in Ef; try (destruct lead); try discriminate;
         injection Ef as <-; repeat split; try reflexivity; try discriminate; try (intros; discriminate). }
   destruct F as (F1 & F2 & F3). repeat split; [exact F1|exact F2|].
   intros E47. specialize (F3 E47). subst t. cbn [spell render_tok] in Hs. injection Hs as _ ->. cbn [app].
@@ -710,6 +712,14 @@ Proof.
     repeat (apply andb_prop in Y1; destruct Y1 as [? Y1]). repeat (apply andb_prop in M1; destruct M1 as [? M1]).
     repeat (apply andb_prop in D1; destruct D1 as [? D1]).
     clear - H4 H5 H6 H7 Y1 H8 H9 M1 H10 H11 D1. unfold is_digit in *. lia.
+  - (* string *)
+    destruct (existsb (fun c => c =? 39) s) eqn:E39.
+    + exists 34. split; [left; reflexivity|]. split; [reflexivity|]. rewrite andb_true_r in Hok. apply negb_true_iff in Hok.
+      apply forallb_forall. intros x Hx. apply negb_true_iff. destruct (x =? 34) eqn:Ex; [|reflexivity].
+      rewrite <- Hok. symmetry. apply existsb_exists. exists x. split; assumption.
+    + exists 39. split; [right; reflexivity|]. split; [reflexivity|].
+      apply forallb_forall. intros x Hx. apply negb_true_iff. destruct (x =? 39) eqn:Ex; [|reflexivity].
+      rewrite <- E39. symmetry. apply existsb_exists. exists x. split; assumption.
   - exists 115. split; reflexivity.
   - destruct (ident_word s Hok) as (Hw & Hl). exists [], s, [], 115. cbn [app].
     split; [reflexivity|]. repeat split; try apply sep_nil; try apply Hw; assumption.
